@@ -29,9 +29,20 @@ Check (C07_packet : forall p v sl tl sfx, bytes_ok p -> parse p = Ok v ->
   Forall lab sl -> Forall lab tl -> sl <> [] -> tl <> [] -> bytes_ok (wire_of_labels tl) ->
   length (wire_of_labels sl) <= 255 -> length (wire_of_labels tl) <= 255 ->
   exists qls qt lxa lxn lxr qe, reading p qls qt lxa lxn lxr /\ cname_l p 12 qls qe /\
-    (renamer_rename v (wire_of_labels tl) (wire_of_labels sl) sfx = Err InvalidName \/
+    ((renamer_rename v (wire_of_labels tl) (wire_of_labels sl) sfx = Err InvalidName /\
+      (overflows sl tl sfx qls \/ Exists (rec_overflows sl tl sfx) (lxa ++ lxn ++ lxr))) \/
      exists out qls' L' X, renamer_rename v (wire_of_labels tl) (wire_of_labels sl) sfx = Ok out /\ bytes_ok out /\
        renamed sl tl sfx qls qls' /\ Forall2 (ren_rec sl tl sfx) (lxa ++ lxn ++ lxr) L' /\
+       ~ overflows sl tl sfx qls /\ Forall (fun rx => ~ rec_overflows sl tl sfx rx) (lxa ++ lxn ++ lxr) /\
        out = (firstn 12 p ++ wire_of_labels qls' ++ firstn 4 (skipn qe p)) ++ X /\
        recs_enc p out (12 + length (wire_of_labels qls') + 4) L' (length out))).
 Print Assumptions C07_packet.
+Check (C07_same_message : forall p v sl tl sfx out v', bytes_ok p -> parse p = Ok v ->
+  Forall lab sl -> Forall lab tl -> sl <> [] -> tl <> [] -> bytes_ok (wire_of_labels tl) ->
+  length (wire_of_labels sl) <= 255 -> length (wire_of_labels tl) <= 255 ->
+  renamer_rename v (wire_of_labels tl) (wire_of_labels sl) sfx = Ok out -> parse out = Ok v' ->
+  exists qls qt lxa lxn lxr qls' L' lxa' lxn' lxr',
+    reading p qls qt lxa lxn lxr /\ renamed sl tl sfx qls qls' /\ Forall2 (ren_rec sl tl sfx) (lxa ++ lxn ++ lxr) L' /\
+    reading out qls' qt lxa' lxn' lxr' /\ Forall2 ci_rec L' (lxa' ++ lxn' ++ lxr') /\
+    length lxa' = length lxa /\ length lxn' = length lxn /\ length lxr' = length lxr).
+Print Assumptions C07_same_message.
